@@ -63,15 +63,23 @@ Definition isolated (z : zone) (w : Z) : bool :=
   end.
 
 (* ------------------------------------------------------------------ well-formedness *)
-(* strictly increasing transition instants, and consecutive transitions at least as far apart
-   as the sum of the sizes of the two adjacent offset changes *)
+(* strictly increasing transition instants, and every offset regime lasts long enough:
+   * at least the widths of the repeated intervals (offset decreases) at its two ends together --
+     otherwise some wall time has three pre-images, or (one end) tzfile.is_ambiguous calls a wall time
+     repeated that the short regime never showed (finding F-C05-short-regime);
+   * at least the width of the gap (offset increase) at either of its ends -- otherwise the "gap"
+     is partly covered by the next / previous regime.
+   (Round 5: this replaces the stronger `sum of the two adjacent |offset changes|`.) *)
+Definition dec (p o : Z) : Z := Z.max 0 (p - o).     (* width of the repeated interval of a change p -> o *)
+Definition inc (p o : Z) : Z := Z.max 0 (o - p).     (* width of the gap of a change p -> o *)
 Fixpoint wf_from (p : Z) (tr : list (Z * Z)) : bool :=
   match tr with
   | [] => true
   | (t, o) :: r =>
     match r with
     | [] => true
-    | (t', o') :: _ => (t <? t') && (Z.abs (o - p) + Z.abs (o' - o) <=? t' - t) && wf_from o r
+    | (t', o') :: _ =>
+      (t <? t') && (dec p o + dec o o' <=? t' - t) && (inc p o <=? t' - t) && (inc o o' <=? t' - t) && wf_from o r
     end
   end.
 Definition in_day (o : Z) : bool := (-86400 <? o) && (o <? 86400).
